@@ -577,7 +577,7 @@ func newExecution(sc scenario, bs []*c17b.Body, prefix []int, conflict map[int]b
 		th.vc[i] = 1
 		e.threads = append(e.threads, th)
 	}
-	e.region = buildRegion([]interface{}{st})
+	e.region = buildRegion(append([]interface{}{st}, c17b.SchemaRoots()...))
 	return e
 }
 
